@@ -334,12 +334,12 @@ impl NodeRecordStore {
             timestamp: self.timestamp,
         };
 
-        spawn(async move {
-            if let Ok(mut file) = fs::File::create(file_path) {
-                let mut serialiser = rmp_serde::encode::Serializer::new(&mut file);
-                let _ = historic_quoting_metrics.serialize(&mut serialiser);
-            }
-        });
+        // Written in place (a few bytes): spawned writes of successive counts could complete
+        // out of order and leave an older count on disk, to be restored by the next restart.
+        if let Ok(mut file) = fs::File::create(file_path) {
+            let mut serialiser = rmp_serde::encode::Serializer::new(&mut file);
+            let _ = historic_quoting_metrics.serialize(&mut serialiser);
+        }
     }
 
     /// Creates a new `DiskBackedStore` with the given configuration.
